@@ -30,6 +30,10 @@ func (mp *ConsensusMessagesFilter) HandleConsensusMessage(message interfaces.Con
 		return errors.Errorf("Out of committee - ignoring message %s H=%d V=%d", message.MessageType(), message.BlockHeight(), message.View())
 	}
 
+	if expected := expectedHeaderType(message); message.MessageType() != expected {
+		return errors.Errorf("signed header says %s inside a %s message - ignoring H=%d V=%d", message.MessageType(), expected, message.BlockHeight(), message.View())
+	}
+
 	switch message := message.(type) {
 	case *interfaces.PreprepareMessage:
 		mp.handler.HandlePrePrepare(message)
@@ -60,4 +64,21 @@ func (mp *ConsensusMessagesFilter) HandleConsensusMessage(message interfaces.Con
 	}
 
 	return nil
+}
+
+// the message type inside the signed header must be the one of the envelope it travels in
+func expectedHeaderType(message interfaces.ConsensusMessage) protocol.MessageType {
+	switch message.(type) {
+	case *interfaces.PreprepareMessage:
+		return protocol.LEAN_HELIX_PREPREPARE
+	case *interfaces.PrepareMessage:
+		return protocol.LEAN_HELIX_PREPARE
+	case *interfaces.CommitMessage:
+		return protocol.LEAN_HELIX_COMMIT
+	case *interfaces.ViewChangeMessage:
+		return protocol.LEAN_HELIX_VIEW_CHANGE
+	case *interfaces.NewViewMessage:
+		return protocol.LEAN_HELIX_NEW_VIEW
+	}
+	return protocol.LEAN_HELIX_RESERVED
 }
